@@ -63,7 +63,8 @@ theorem sorted_unique_ordinary (rev : Bool) (s s' l l' : List F64) (hp : l.Perm 
       have hab := skey_inj (hs a (by simp)) (hs' b (by simp)) e.1
       rw [hab, ih t e.2 (fun x hx => hs x (by simp [hx])) (fun x hx => hs' x (by simp [hx]))]
 
-theorem ordinary_maxF64 : Ordinary maxF64 ∧ Ordinary (F64.neg maxF64) := by
+/-- The start values of `Min` / `Max` (whatever sentinels `NewNumericalAggregator` uses) are ordinary. -/
+theorem ordinary_new : Ordinary NumF.new.min ∧ Ordinary NumF.new.max := by
   refine ⟨⟨by decide, by decide⟩, ⟨by decide, by decide⟩⟩
 
 theorem key_eq_of_le_le {x y : F64} (h1 : F64.le x y = true) (h2 : F64.le y x = true) : skey x = skey y := by
@@ -76,21 +77,21 @@ theorem runFv_minmax_perm (keep : Bool) {l l' : List F64} (hp : l.Perm l') (ho :
     (runFv keep l).samples = (runFv keep l').samples ∧ (runFv keep l).min = (runFv keep l').min ∧
     (runFv keep l).max = (runFv keep l').max := by
   have ho' : ∀ x ∈ l', Ordinary x := fun x hx => ho x (hp.mem_iff.mpr hx)
+  have hn1 := ordinary_new.1.1
+  have hn2 := ordinary_new.2.1
   refine ⟨by rw [runFv_samples, runFv_samples, hp.length_eq], ?_, ?_⟩
-  · obtain ⟨n1, _, m1, le1, all1, _⟩ := minmax_fold keep l NumF.new isNaN_maxF64 isNaN_negMaxF64
-    obtain ⟨n2, _, m2, le2, all2, _⟩ := minmax_fold keep l' NumF.new isNaN_maxF64 isNaN_negMaxF64
+  · obtain ⟨n1, _, m1, le1, all1, _⟩ := minmax_fold keep l NumF.new hn1 hn2
+    obtain ⟨n2, _, m2, le2, all2, _⟩ := minmax_fold keep l' NumF.new hn1 hn2
     show (l.foldl (NumF.samplef keep) NumF.new).min = (l'.foldl (NumF.samplef keep) NumF.new).min
     generalize (l.foldl (NumF.samplef keep) NumF.new).min = a at n1 m1 le1 all1
     generalize (l'.foldl (NumF.samplef keep) NumF.new).min = b at n2 m2 le2 all2
-    have hsent : NumF.new.min = maxF64 := rfl
-    rw [hsent] at m1 m2 le1 le2
     have oa : Ordinary a := by
       rcases m1 with rfl | h
-      · exact ordinary_maxF64.1
+      · exact ordinary_new.1
       · exact ho a h
     have ob : Ordinary b := by
       rcases m2 with rfl | h
-      · exact ordinary_maxF64.1
+      · exact ordinary_new.1
       · exact ho' b h
     apply skey_inj oa ob
     have hab : F64.le a b = true := by
@@ -102,20 +103,18 @@ theorem runFv_minmax_perm (keep : Bool) {l l' : List F64} (hp : l.Perm l') (ho :
       · exact le2
       · exact all2 a (hp.mem_iff.mp h) oa.1
     exact key_eq_of_le_le hab hba
-  · obtain ⟨_, n1, _, _, _, _, m1, le1, all1, _⟩ := minmax_fold keep l NumF.new isNaN_maxF64 isNaN_negMaxF64
-    obtain ⟨_, n2, _, _, _, _, m2, le2, all2, _⟩ := minmax_fold keep l' NumF.new isNaN_maxF64 isNaN_negMaxF64
+  · obtain ⟨_, n1, _, _, _, _, m1, le1, all1, _⟩ := minmax_fold keep l NumF.new hn1 hn2
+    obtain ⟨_, n2, _, _, _, _, m2, le2, all2, _⟩ := minmax_fold keep l' NumF.new hn1 hn2
     show (l.foldl (NumF.samplef keep) NumF.new).max = (l'.foldl (NumF.samplef keep) NumF.new).max
     generalize (l.foldl (NumF.samplef keep) NumF.new).max = a at n1 m1 le1 all1
     generalize (l'.foldl (NumF.samplef keep) NumF.new).max = b at n2 m2 le2 all2
-    have hsent : NumF.new.max = F64.neg maxF64 := rfl
-    rw [hsent] at m1 m2 le1 le2
     have oa : Ordinary a := by
       rcases m1 with rfl | h
-      · exact ordinary_maxF64.2
+      · exact ordinary_new.2
       · exact ho a h
     have ob : Ordinary b := by
       rcases m2 with rfl | h
-      · exact ordinary_maxF64.2
+      · exact ordinary_new.2
       · exact ho' b h
     apply skey_inj oa ob
     have hab : F64.le b a = true := by
